@@ -98,6 +98,22 @@ def encText (bs : List UInt8) : String :=
       | .ok t => "ok " ++ hexStr t
       | .error e => errTag e
 
+/-- decode → encode → decode: `M1 ## text ## M2`. -/
+def rtText (bs : List UInt8) : String :=
+  fmtIo (decodeBytes (beatmapDecoder (F := Float) (P := Float32)) bs) fun st =>
+    match st.finish with
+    | .error e => errTag e
+    | .ok m1 =>
+      match Encode.encode m1 with
+      | .error e => errTag e
+      | .ok t =>
+        match decodeBytes (beatmapDecoder (F := Float) (P := Float32)) (utf8Encode t) with
+        | .error k => "err2 " ++ k.tag
+        | .ok st2 =>
+          match st2.finish with
+          | .error e => errTag e
+          | .ok m2 => "ok " ++ dumpBeatmap m1 ++ " ## " ++ hexStr t ++ " ## " ++ dumpBeatmap m2
+
 end Rosu.WholeCmd
 
 namespace Rosu
@@ -106,6 +122,7 @@ def dispatchWhole (toks : List String) : Option String :=
   | ["dec", hex] => some (WholeCmd.decBeatmap (unhex hex))
   | ["dec9", hex] => some (WholeCmd.dec9 (unhex hex))
   | ["enc", hex] => some (WholeCmd.encText (unhex hex))
+  | ["rt", hex] => some (WholeCmd.rtText (unhex hex))
   | ["decshift", _, a, b] => some (WholeCmd.decBeatmap (unhex a) ++ " ## " ++ WholeCmd.decBeatmap (unhex b))
   | _ => none
 end Rosu
